@@ -1,6 +1,6 @@
 (* C06 — takePreferredCPUs is complete, and the model passes the decision procedure that
    Extract runs on observables (stream "take"): prop_case inp (run_case inp) = 0 for every
-   well-formed input whose policy is not FullPCPUs. *)
+   well-formed input, whatever the policy. *)
 From Coq Require Import List ZArith Bool Lia Permutation Sorting.Sorted.
 From Verif Require Import C06.Model C06.Spec C06.Proofs_base C06.Proofs_gen C06.Proofs_take
   C06.Proofs_take2 C06.Proofs_alloc C06.Proofs_spec.
@@ -38,7 +38,7 @@ Proof.
     pose proof (take_cpus_complete c pref allocated (Z.min n (lenZ pref)) bind HT) as Hc1.
     rewrite (kept_len _ _ HT Hpnd HprefT) in Hc1. specialize (Hc1 ltac:(lia)).
     destruct (take_cpus c pref allocated (Z.min n (lenZ pref)) bind) as [r|] eqn:E1; [|congruence].
-    destruct (take_cpus_spec c _ _ _ _ _ HT E1) as [R1 [R2 [_ [R4 _]]]].
+    destruct (take_cpus_spec c _ _ _ _ _ HT E1) as [R1 [R2 [_ R4]]].
     destruct (0 <? n - lenZ r) eqn:En; [|discriminate]. apply Z.ltb_lt in En.
     set (avail' := filter (fun i => negb (memZ i pref)) avail) in *.
     assert (Hlr : lenZ r <= lenZ pref) by (apply NoDup_incl_lenZ; assumption).
@@ -97,16 +97,15 @@ Qed.
 (* ------------------------------------------------------------------ the model passes its own check *)
 Lemma take_model_passes c avail preferred allocated n bind :
   NoDup (map cid (c_topo c)) -> NoDup avail -> incl avail (map cid (c_topo c)) ->
-  (bind =? 1) = false ->
   match take_preferred c avail preferred allocated n bind with
   | Some s => take_code (c_topo c) avail n (Some (sortZ s))
                         (determine_full (c_topo c) s) (determine_spread (c_topo c) s) = 0
   | None => take_code (c_topo c) avail n None false false = 0
   end.
 Proof.
-  intros HT Hav Hinc Hb. set (T := c_topo c) in *.
+  intros HT Hav Hinc. set (T := c_topo c) in *.
   destruct (take_preferred c avail preferred allocated n bind) as [s|] eqn:E.
-  - destruct (take_preferred_spec c _ _ _ _ _ _ HT E) as [S1 [S2 [S3 [_ S5]]]]. specialize (S5 Hb).
+  - destruct (take_preferred_spec c _ _ _ _ _ _ HT E) as [S1 [S2 [S3 S5]]].
     pose proof (sortZ_perm s) as Hp.
     assert (Hnd : NoDup (sortZ s)) by (eapply Permutation_NoDup; [apply Permutation_sym; exact Hp|exact S1]).
     unfold take_code.
